@@ -1,7 +1,7 @@
 """C04 — array training is independent of chunking, task order and worker isolation."""
 import numpy as np
 
-from vf import gen, sched, sut
+from vf import gen, guard, sched, sut
 from vf.runner import Registry
 
 EPS = np.finfo(float).eps
@@ -89,7 +89,9 @@ def km(case, thr):
 def c_km(ctx, case):
     """k-means on a Dask array: same centroids, same criterion, same number of iterations as in memory."""
     X, thr = case["X"], case["thr"]
+    n0 = guard.steps()
     a = km(case, thr).fit(X)
+    iters_a = guard.steps() - n0
     if thr:
         for f in (1 - 1e-6, 1 + 1e-6):
             b = km(case, thr * f).fit(X)
@@ -99,11 +101,15 @@ def c_km(ctx, case):
         ctx.discard("empty cluster")
     s = case["sched"]
     with sched.owned(s["order"], s["seed"], s["isolate"]) as ex:
+        n0 = guard.steps()
         d = km(case, thr).fit(darr(X, case["chunks"], case["fchunks"]))
+        iters_d = guard.steps() - n0
         dv, dw = d.get_variances_and_weights_for_each_cluster(darr(X, case["chunks"], case["fchunks"]))
     note(ctx, case, case["cap"], ("init:" + case["init"]["method"], "thr" if thr else "no-thr"))
     sc = float(np.abs(X).max())
     spread = float(np.abs(X - X.mean(axis=0)).max()) + 1e-300
+    ctx.check(iters_d == iters_a, "k-means performed %d iterations on the Dask array and %d on the in-memory array"
+              % (iters_d, iters_a))
     ctx.close(d.centroids_, a.centroids_, "centroids (Dask vs in-memory)", rtol=1e-7, atol=1e-9 * spread)
     ctx.close(d.average_min_distance, a.average_min_distance, "training criterion (Dask vs in-memory)", rtol=1e-7,
               atol=64 * EPS * sc * sc)
@@ -151,7 +157,9 @@ def gmm(case, thr):
 def c_gmm(ctx, case):
     """GMM (ML / MAP / k-means-initialised) on a Dask array: same model and iteration count as in memory."""
     X, thr = case["X"], case["thr"]
+    n0 = guard.steps()
     a = gmm(case, thr).fit(X)
+    iters_a = guard.steps() - n0
     pa = sut.params_of(a)
     if not all(np.isfinite(x).all() for x in pa):
         ctx.discard("non-finite in-memory model (empty k-means cluster)")
@@ -166,11 +174,15 @@ def c_gmm(ctx, case):
                 ctx.discard("stop decision within 1e-6 of the threshold")
     s = case["sched"]
     with sched.owned(s["order"], s["seed"], s["isolate"]) as ex:
+        n0 = guard.steps()
         d = gmm(case, thr).fit(darr(X, case["chunks"], case["fchunks"]))
+        iters_d = guard.steps() - n0
     pd = sut.params_of(d)
     note(ctx, case, case["cap"], ("trainer:" + case["trainer"], "kmeans-init" if case["init_by_kmeans"] else None,
                                   "upd:%d%d%d" % tuple(int(u) for u in case["upd"])))
     sc = float(np.abs(X).max())
+    ctx.check(iters_d == iters_a, "GMM training performed %d M-steps on the Dask array and %d on the in-memory array"
+              % (iters_d, iters_a))
     ctx.close(pd[0], pa[0], "weights (Dask vs in-memory)", rtol=1e-7, atol=1e-10)
     ctx.close(pd[1], pa[1], "means (Dask vs in-memory)", rtol=1e-7, atol=1e-9 * sc)
     ctx.close(pd[2], pa[2], "variances (Dask vs in-memory)", rtol=1e-6, atol=64 * X.shape[0] * EPS * sc * sc)
